@@ -343,11 +343,22 @@ func (p *Property) worker() {
 			mu.Unlock()
 		}
 	}()
+	// fd 3, if the parent passed one: the id of the run in progress, so that a fatal crash of
+	// this process (a signal inside the library: not recoverable) can be attributed to a plan
+	var mark *os.File
+	if f := os.NewFile(3, "mark"); f != nil {
+		if _, err := f.Stat(); err == nil {
+			mark = f
+		}
+	}
 	for id := start; id < total; id += W {
 		if time.Since(t0).Seconds() > capS {
 			sum.Truncated = true
 			sum.NextID = id
 			break
+		}
+		if mark != nil {
+			mark.WriteAt([]byte(fmt.Sprintf("%019d\n", id)), 0)
 		}
 		plan := p.planFor(seed, tier, id, directed)
 		mu.Lock()
@@ -775,10 +786,49 @@ func (p *Property) check(tier string) int {
 			var so, se bytes.Buffer
 			cmd.Stdout = &so
 			cmd.Stderr = &se
+			mf, _ := os.CreateTemp("", "circlsim-mark")
+			if mf != nil {
+				cmd.ExtraFiles = []*os.File{mf}
+			}
 			err := cmd.Run()
+			crashedAt := -1
+			if mf != nil {
+				buf := make([]byte, 19)
+				if n, _ := mf.ReadAt(buf, 0); n == 19 {
+					if v, e := strconv.Atoi(strings.TrimLeft(string(buf), "0")); e == nil {
+						crashedAt = v
+					} else if string(buf) == strings.Repeat("0", 19) {
+						crashedAt = 0
+					}
+				}
+				mf.Close()
+				os.Remove(mf.Name())
+			}
 			line := lastJSONLine(so.Bytes())
 			var s workerSummary
 			if line == nil || json.Unmarshal(line, &s) != nil {
+				// The worker died. If the run it was executing kills a fresh process too, that
+				// is a fatal crash of the library on that plan (a violation with a replay file);
+				// otherwise it stays harness trouble.
+				if crashedAt >= 0 && !p.ChildPerRun {
+					var directed []any
+					if p.Directed != nil {
+						directed = p.Directed(tier)
+					}
+					plan := p.planFor(seed, tier, crashedAt, directed)
+					if res, cerr := p.execInChild(plan, false); cerr == nil && res.Digest == "" && len(res.Viol) > 0 {
+						cs := &workerSummary{Worker: j.w, Faults: map[string]int{}, Probes: map[string]int{}, Digests: map[string]string{}, NextID: crashedAt + W, Runs: 1}
+						cs.Viol = append(cs.Viol, violRecord{crashedAt, res.Viol[0], json.RawMessage(plan), crashedAt})
+						smu.Lock()
+						sums = append(sums, cs)
+						smu.Unlock()
+						if cs.NextID >= total {
+							return
+						}
+						start = cs.NextID
+						continue
+					}
+				}
 				smu.Lock()
 				harnessTrouble = fmt.Sprintf("worker %d died without summary: %v: %s", j.w, err, truncate(se.String(), 1500))
 				smu.Unlock()
